@@ -522,8 +522,9 @@ def run(ctx):
     if ctx.quick:
         rjobs = [(s, 1, 3000, False) for s in RACE_SCENARIOS[:8]] + [(RACE_SCENARIOS[1], 2, 3000, False)]
     else:
-        rjobs = [(s, 3 if len(s[1]) == 1 else 2, 80000, False) for s in RACE_SCENARIOS]
-        rjobs += [(s, 2, 60000, True) for s in RACE_SCENARIOS[:4]]
+        # the cap is per subtree group (see sched.run_partitioned): budgets chosen for about a quarter of an hour
+        rjobs = [(s, 3 if len(s[1]) == 1 else 2, 1500, False) for s in RACE_SCENARIOS]
+        rjobs += [(s, 2, 1500, True) for s in RACE_SCENARIOS[:4]]
     sched.run_partitioned(ctx, _race_work, ctx.rotate(rjobs), _race_key, group=6)
     ctx.note('bounds', {'histories': len(hs), 'restart_cases': len(cases), 'race_scenarios': len(rjobs), 'preemption_bound': bound})
     ctx.assumptions.append('the consumer MDIB is restored between delivery sequences by re-inserting deep copies of the tables taken '
